@@ -233,6 +233,14 @@ func (m *Method) compileOutput() error {
 }
 
 func (m *Method) compileType() error {
+	if ch := m.Channel; ch != nil {
+		for _, t := range []*Type{ch.In, ch.Out} {
+			if t != nil && t.Kind != KindMessage {
+				return fmt.Errorf("invalid channel, channel type must be a message, got %q instead", t.Kind)
+			}
+		}
+	}
+
 	if m.Oneway {
 		switch {
 		case m.Response != nil:
